@@ -223,21 +223,26 @@ TEXT = {
         "technique": "Lean 4 proof (simulation of the iterator state machine by a list cursor, induction over call sequences) + differential correspondence",
     },
     "C04": {
-        "level_text": "The full statement is written in Lean (C04_sharded_eq_direct_full) but NOT proved. Proved links of its chain: the pieces of every read "
-                      "tile it exactly with true flanks (C08); TABLE LEVEL (C04_shard_tables, C04_shard_filter): for every read set and every "
-                      "configuration inside msp_sequence's contract (1<=P<=K, K>=4, injective permutation or the default), the shards are produced, "
-                      "their buckets are strictly ascending (key-disjoint), every shard's filter_kmers table is - row for row: key, extension "
-                      "set, count/labels, order - the part of the one-pass table whose keys fall into the shard's bucket, likewise the all-k-mers "
-                      "list, and every one-pass row lies in some shard (the (k-mer, extensions) stream of the tiling pieces fed with their true "
-                      "flanks IS the stream of the read; bucket purity carries over to canonical keys); per-shard compression yields the connected "
-                      "components of the shard's good links (C02, id level); re-compression is characterised on graphs satisfying GInv (C09_char). "
-                      "Missing: GInv of the combined multi-shard graph, closure of components across shards. The property itself is decided by running both real pipelines "
-                      "on the same read sets (6-10 (K,P) pairs, default and random permutations, stranded and unstranded, thresholds 1-3, with "
-                      "and without sharded pruning) and comparing canonical partitions, payload totals and adjacencies; both are also diffed with "
-                      "the composed Lean model (per-shard hash orders passed as data).",
+        "level_text": "Theorem C04_sharded_eq_direct (partition claim, end to end, unbounded): for every read set and every configuration inside "
+                      "msp_sequence's contract (1<=P<=K, K>=4, default or any injective minimizer permutation), stranded or not, every count "
+                      "threshold, with or without the sharded pruning step and for every order in which the hash maps list their keys, NEITHER "
+                      "pipeline panics and every node of either final graph has exactly the canonical k-mers of some node of the other. Chain: "
+                      "the (k-mer, extensions) stream of the tiling minimizer pieces fed with their true flanks is the stream of the read, and "
+                      "buckets are pure on canonical keys, so every shard table is row for row the part of the one-pass table in its bucket "
+                      "(C04_shard_tables); the shard tables, concatenated, are sandwiched between the pruned and the full one-pass table, hence "
+                      "well-formed and reciprocal (shard_sandwich, Sandwich lemmas); the shard graphs side by side are 'ported' into that table "
+                      "(each node a chain of good links with two end ports; PGraph, pgraph_flatten), which yields the node-level invariant of the "
+                      "combined graph and completeness of find_link on it; fix_exts ports the graph into the pruned table and node-level good "
+                      "links are exactly the k-mer-level good links between end ports, so re-compression merges two shard nodes iff their "
+                      "k-mers are connected in the pruned table (pgraph_recompress, on top of C09_char); key-level good links depend only on "
+                      "table content, so both pipelines give the classes of one relation (sharded_classes, direct_classes). Payload totals per "
+                      "node and adjacencies are decided by running both real pipelines on the same read sets (6-10 (K,P) pairs, default and "
+                      "random permutations, stranded and unstranded, thresholds 1-3, with and without sharded pruning) and comparing canonical "
+                      "partitions, payload totals and adjacencies; both are also diffed with the composed Lean model (per-shard hash orders "
+                      "passed as data).",
         "design_ref": "DESIGN.md section 6, C04",
-        "level_note": COMMON_NOTE + "Partial (_partial): the end-to-end theorem is missing; machine-checked are the table level and the per-stage links of the chain.",
-        "technique": "Lean 4 proof of chain links + differential correspondence of composed pipelines with executable predicate on both real pipelines",
+        "level_note": COMMON_NOTE + "Partial: the partition claim is proved end to end; payload totals and adjacencies of the two final graphs are compared by execution.",
+        "technique": "Lean 4 proof (refinement chain: observation streams -> tables -> ported graphs -> components of one key-level relation) + differential correspondence of composed pipelines with executable predicate on both real pipelines",
     },
     "C06": {
         "level_text": "Proved (string level): the key chosen by min_rc_flip is the lexicographic minimum of a k-mer and its reverse complement, is the same "
@@ -269,10 +274,14 @@ TEXT = {
                       "resolves to a valid node, orientation is consistent, an admissible target records at least one extension on the entered "
                       "side), its walks are the abstract walks over the good-link relation of the pruned graph (a symmetric relation, proved from "
                       "reciprocity), and two non-censored nodes share a new node IFF good links connect them - the new nodes are exactly the "
-                      "maximal unbranched paths. C09_char_of_built: this applies to every graph compress_kmers builds. Idempotence and "
-                      "equality with direct compression are executable predicates on the crate's result.",
+                      "maximal unbranched paths. C09_char_of_built: this applies to every graph compress_kmers builds. "
+                      "C09_recompress_eq_direct: building the graph from a k-mer table with ANY symmetric join predicate that joins less - in "
+                      "particular never: the one-k-mer-per-node graph - and re-compressing it (no censoring) never panics and gives exactly the "
+                      "partition of compressing the pruned table directly, in any hash order (node-level good links = k-mer-level good links "
+                      "between the end ports of the nodes, pgraph_recompress). Idempotence on an already re-compressed graph and the censored "
+                      "variants are executable predicates on the crate's result.",
         "design_ref": "DESIGN.md section 6, C09",
-        "level_note": COMMON_NOTE + "Partial: C09_char and corollaries by execution.",
+        "level_note": COMMON_NOTE + "Partial: idempotence (GInv of compress_graph's own result) and censored re-compression vs. the table by execution.",
         "technique": "Lean 4 proof (invariants of the well-founded walk and of the in-place fix_exts fold, overlap algebra of merged sequences) + differential correspondence with executable predicates",
     },
     "C19": {
